@@ -371,8 +371,18 @@ func (maddr Multiaddr) MarshalJSON() ([]byte, error) {
 
 // UnmarshalJSON parses a cluster Multiaddr from the JSON representation.
 func (maddr *Multiaddr) UnmarshalJSON(data []byte) error {
-	maddr.Multiaddr, _ = multiaddr.NewMultiaddr("/ip4/127.0.0.1") // null multiaddresses not allowed
-	return maddr.Multiaddr.UnmarshalJSON(data)
+	// multiaddr's own UnmarshalJSON panics when the string is not a
+	// valid multiaddress, so parse it here.
+	var v string
+	if err := json.Unmarshal(data, &v); err != nil {
+		return err
+	}
+	m, err := multiaddr.NewMultiaddr(v)
+	if err != nil {
+		return err
+	}
+	maddr.Multiaddr = m
+	return nil
 }
 
 // MarshalBinary returs the bytes of the wrapped multiaddress.
